@@ -705,6 +705,9 @@ class Interp:
             if isinstance(a, Path) and op in ("==", "!=") and b == 0:
                 return 1 if op == "!=" else 0        # object pointers are non-NULL here
             if isinstance(a, Lin) or isinstance(b, Lin):
+                for v in (a, b):
+                    if not (isnum(v) or isinstance(v, Lin)):
+                        raise ExtractError("operator %s on symbolic and untracked value %r" % (op, v))
                 if op == "+": return a + b
                 if op == "-": return a - b
                 if op == "*": return a * b
@@ -1383,6 +1386,22 @@ def extract_all(repo):
     D["whfast_corrector_orders"] = corr_orders
     D["whfast"] = []
     step = ["reb_integrator_whfast_part1", "FORCE", "reb_integrator_whfast_part2"]
+    # in which coordinate systems does reb_whfast_jump_step do nothing?  (its body is executed; any arithmetic on particle
+    # data stops the interpreter = it does something)
+    D["whfast_jump_noop"] = {}
+    for cname, coord in D["enums"]["whfast_coordinates"]:
+        m = dict(base); m["r.ri_whfast.coordinates"] = coord
+        it = Interp([wh], m, set())
+        it.enums = enums
+        try:
+            it.run("reb_whfast_jump_step", [Path("r"), Fraction(1)])
+            D["whfast_jump_noop"][coord] = (len(it.ops) == 0)
+        except ExtractError:
+            D["whfast_jump_noop"][coord] = False
+
+    def wh_abstract(ops, coord):
+        a = abstract(ops, "whfast")
+        return [o for o in a if not (o[0] == K_JUMP and D["whfast_jump_noop"][coord])]
     for cname, coord in D["enums"]["whfast_coordinates"]:
         for kname, kern in D["enums"]["whfast_kernel"]:
             for corr in corr_orders:
@@ -1400,10 +1419,10 @@ def extract_all(repo):
                         rejected = True
                     ent = {"coordinates": coord, "kernel": kern, "corrector": corr, "corrector2": c2, "rejected": rejected}
                     if not rejected:
-                        ent["step"] = abstract(run_config([wh], enums, step, m, WH_INLINE, {}), "whfast")
+                        ent["step"] = wh_abstract(run_config([wh], enums, step, m, WH_INLINE, {}), coord)
                         m2 = dict(m); m2["r.ri_whfast.safe_mode"] = 0
-                        ent["two_unsync"] = abstract(run_config([wh], enums, step + step + ["reb_integrator_whfast_synchronize"], m2,
-                                                                WH_INLINE, {}), "whfast")
+                        ent["two_unsync"] = wh_abstract(run_config([wh], enums, step + step + ["reb_integrator_whfast_synchronize"], m2,
+                                                                   WH_INLINE, {}), coord)
                     D["whfast"].append(ent)
     D["whfast_correctors"] = []
     for corr in corr_orders[1:]:
@@ -1448,3 +1467,291 @@ def extract_all(repo):
     ops = run_config([lf], enums, ["reb_integrator_leapfrog_part1", "FORCE", "reb_integrator_leapfrog_part2"], lbase, set())
     D["leapfrog"] = abstract_leapfrog(ops)
     return D
+
+
+# ------------------------------------------------------------------------------- Lean emission
+def lq(v):
+    v = Fraction(v)
+    n, d = v.numerator, v.denominator
+    return ("q (%d) %d" % (n, d)) if n < 0 else ("q %d %d" % (n, d))
+
+
+def lop(o):
+    k, a, b = o
+    return "⟨%d, %s, %s⟩" % (k, lq(a), lq(b))
+
+
+def lops(s, indent="  "):
+    if not s:
+        return "[]"
+    return "[" + (",\n" + indent + " ").join(lop(o) for o in s) + "]"
+
+
+def llist(xs):
+    return "[" + ", ".join(lq(x) for x in xs) + "]"
+
+
+HEADER = """/- GENERATED by rv/extract_c01.py from %s — do not edit.
+   Decimal literals of the C source as exact rationals; schedules = the primitive-operator calls the source's
+   control flow makes for one time step (coefficients in units of dt, jerk terms of dt^3). -/
+import RV.Model.Sched
+set_option maxRecDepth 100000
+namespace RV.C01.Gen
+open RV.C01
+
+"""
+
+
+def split_processed(full, pre, post, what):
+    if full[:len(pre)] != pre or (post and full[len(full) - len(post):] != post) or len(pre) + len(post) > len(full):
+        raise ExtractError("%s: the full step is not pre ++ core ++ post" % what)
+    return full[len(pre):len(full) - len(post)]
+
+
+def emit_lean(D):
+    """dict: file name (under lean/RV/Gen) -> content"""
+    out = {}
+    T = D["tables"]
+    # ---------------- SABA
+    s = HEADER % "src/integrator_saba.c, src/rebound.h"
+    s += "def sabaC : List (List Rat) := [\n  " + ",\n  ".join(llist(r) for r in T["reb_saba_c"]["value"]) + "]\n"
+    s += "def sabaD : List (List Rat) := [\n  " + ",\n  ".join(llist(r) for r in T["reb_saba_d"]["value"]) + "]\n"
+    s += "def sabaCC : List Rat := " + llist(T["reb_saba_cc"]["value"]) + "\n"
+    s += "/-- (enumerator, value, reb_saba_stages(value)) -/\ndef sabaTypes : List (String × Nat × Nat) := [" + \
+        ", ".join('("%s", %d, %d)' % (e["name"], e["value"], e["stages"]) for e in D["saba"]) + "]\n"
+    for e in D["saba"]:
+        s += "def sabaStep_%s : List Op :=\n  %s\n" % (e["name"], lops(e["step"]))
+        s += "def sabaTwo_%s : List Op :=\n  %s\n" % (e["name"], lops(e["two_unsync"]))
+    s += "/-- type value ↦ the operators of one synchronized step (part1, force evaluation, part2 incl. synchronize) -/\n"
+    s += "def sabaStep : List (Nat × List Op) := [" + ", ".join("(%d, sabaStep_%s)" % (e["value"], e["name"]) for e in D["saba"]) + "]\n"
+    s += "/-- type value ↦ two steps with safe_mode = 0 followed by synchronize -/\n"
+    s += "def sabaTwoUnsync : List (Nat × List Op) := [" + ", ".join("(%d, sabaTwo_%s)" % (e["value"], e["name"]) for e in D["saba"]) + "]\n"
+    s += "def sabaCounts : List (String × Nat) := [(\"c literals\", %d), (\"d literals\", %d), (\"cc literals\", %d), (\"types\", %d)]\n" % (
+        T["reb_saba_c"]["explicit"], T["reb_saba_d"]["explicit"], T["reb_saba_cc"]["explicit"], len(D["saba"]))
+    s += "end RV.C01.Gen\n"
+    out["C01Saba.lean"] = s
+
+    # ---------------- WHFast
+    s = HEADER % "src/integrator_whfast.c, src/rebound.h"
+    s += "def whA : List Rat := " + llist([T[n]["value"] for n in D["whfast_a_names"]]) + "\n"
+    byorder = {}
+    for n in D["whfast_b_names"]:
+        m = re.match(r"reb_whfast_corrector_b_(\d+?)(\d)$", n)
+        byorder.setdefault(int(m.group(1)), []).append((int(m.group(2)), T[n]["value"]))
+    s += "/-- corrector order ↦ b_{order,1..} -/\ndef whB : List (Nat × List Rat) := [" + ", ".join(
+        "(%d, %s)" % (o, llist([v for _, v in sorted(byorder[o])])) for o in sorted(byorder)) + "]\n"
+    s += "def whC2B : Rat := " + lq(T["reb_whfast_corrector2_b"]["value"]) + "\n"
+    for c in D["whfast_correctors"]:
+        s += "def whCorr_%d_%s : List Op :=\n  %s\n" % (c["order"], "p" if c["inv"] > 0 else "m", lops(c["ops"]))
+    s += "/-- (order, forward?) ↦ operators of reb_whfast_apply_corrector(r, ±1, order) -/\n"
+    s += "def whCorr : List ((Nat × Bool) × List Op) := [" + ", ".join(
+        "((%d, %s), whCorr_%d_%s)" % (c["order"], "true" if c["inv"] > 0 else "false", c["order"], "p" if c["inv"] > 0 else "m")
+        for c in D["whfast_correctors"]) + "]\n"
+    # decomposition of every accepted configuration
+    corr = {(c["order"], c["inv"]): c["ops"] for c in D["whfast_correctors"]}
+    acc = [e for e in D["whfast"] if not e["rejected"]]
+    # second corrector blocks: from the configuration (jacobi, default kernel, corrector 0, corrector2 1)
+    base0 = [e for e in acc if e["coordinates"] == 0 and e["kernel"] == 0 and e["corrector"] == 0 and e["corrector2"] == 0][0]["step"]
+    base1 = [e for e in acc if e["coordinates"] == 0 and e["kernel"] == 0 and e["corrector"] == 0 and e["corrector2"] == 1][0]["step"]
+    k2 = (len(base1) - len(base0)) // 2
+    c2p, c2m = base1[:k2], base1[len(base1) - k2:]
+    if base1[k2:len(base1) - k2] != base0:
+        raise ExtractError("whfast: corrector2 blocks are not a prefix/suffix of the step")
+    s += "def whCorr2_p : List Op :=\n  %s\n" % lops(c2p)
+    s += "def whCorr2_m : List Op :=\n  %s\n" % lops(c2m)
+    cores = {}
+    cfgs = []
+    for e in acc:
+        pre = (corr[(e["corrector"], 1)] if e["corrector"] else []) + (c2p if e["corrector2"] else [])
+        post = (c2m if e["corrector2"] else []) + (corr[(e["corrector"], -1)] if e["corrector"] else [])
+        core = split_processed(e["step"], pre, post, "whfast %s" % e)
+        key = (e["coordinates"], e["kernel"])
+        if key in cores and cores[key] != core:
+            raise ExtractError("whfast: kernel part of the step depends on the corrector setting")
+        cores[key] = core
+        # the unsynchronised double step
+        two = e["two_unsync"]
+        core2 = split_processed(two, pre, post, "whfast two-step %s" % e)
+        k2key = ("two",) + key
+        if k2key in cores and cores[k2key] != core2:
+            raise ExtractError("whfast: unsynchronised kernel part depends on the corrector setting")
+        cores[k2key] = core2
+        cfgs.append(e)
+    for key in sorted(k for k in cores if k[0] != "two"):
+        s += "def whCore_%d_%d : List Op :=\n  %s\n" % (key[0], key[1], lops(cores[key]))
+        s += "def whCoreTwo_%d_%d : List Op :=\n  %s\n" % (key[0], key[1], lops(cores[("two",) + key]))
+    s += "/-- (coordinates, kernel) ↦ the step without correctors -/\ndef whCore : List ((Nat × Nat) × List Op) := [" + ", ".join(
+        "((%d, %d), whCore_%d_%d)" % (k[0], k[1], k[0], k[1]) for k in sorted(k for k in cores if k[0] != "two")) + "]\n"
+    s += "/-- (coordinates, kernel) ↦ two steps with safe_mode = 0 followed by synchronize, without correctors -/\n"
+    s += "def whCoreTwo : List ((Nat × Nat) × List Op) := [" + ", ".join(
+        "((%d, %d), whCoreTwo_%d_%d)" % (k[0], k[1], k[0], k[1]) for k in sorted(k for k in cores if k[0] != "two")) + "]\n"
+    s += "/-- configurations (coordinates, kernel, corrector, corrector2) accepted by reb_integrator_whfast_init; for each of them the\n"
+    s += "    translator checked: step = corrector(+1) ++ corrector2(+1) ++ core ++ corrector2(-1) ++ corrector(-1) -/\n"
+    s += "def whAccepted : List (Nat × Nat × Nat × Nat) := [" + ", ".join(
+        "(%d, %d, %d, %d)" % (e["coordinates"], e["kernel"], e["corrector"], e["corrector2"]) for e in cfgs) + "]\n"
+    s += "def whRejected : List (Nat × Nat × Nat × Nat) := [" + ", ".join(
+        "(%d, %d, %d, %d)" % (e["coordinates"], e["kernel"], e["corrector"], e["corrector2"]) for e in D["whfast"] if e["rejected"]) + "]\n"
+    s += "/-- coordinates ↦ reb_whfast_jump_step does nothing (its operator is then omitted from the schedules) -/\n"
+    s += "def whJumpNoop : List (Nat × Bool) := [" + ", ".join("(%d, %s)" % (c, "true" if v else "false") for c, v in sorted(D["whfast_jump_noop"].items())) + "]\n"
+    s += "def whCounts : List (String × Nat) := [(\"a\", %d), (\"b\", %d), (\"accepted\", %d), (\"rejected\", %d)]\n" % (
+        len(D["whfast_a_names"]), len(D["whfast_b_names"]), len(cfgs), len(D["whfast"]) - len(cfgs))
+    s += "end RV.C01.Gen\n"
+    out["C01Whfast.lean"] = s
+
+    # ---------------- EOS
+    s = HEADER % "src/integrator_eos.c, src/rebound.h"
+    for n in D["eos_table_names"]:
+        v = T["eos_" + n]["value"]
+        s += "def eos_%s : List Rat := %s\n" % (n, llist(v if isinstance(v, list) else [v]))
+    s += "def eosTypes : List (String × Nat) := [" + ", ".join('("%s", %d)' % (e["name"], e["value"]) for e in D["eos"]) + "]\n"
+    for e in D["eos"]:
+        nm = e["name"]
+        s += "def eosOuter_%s : List Op :=\n  %s\n" % (nm, lops(e["outer"]))
+        s += "def eosOuterTwo_%s : List Op :=\n  %s\n" % (nm, lops(e["outer_two_unsync"]))
+        for n in sorted(e["inner"]):
+            s += "def eosInner_%s_%d : List Op :=\n  %s\n" % (nm, n, lops(e["inner"][n]))
+        for part in ("pre", "head", "body", "merge", "tail", "post"):
+            s += "def eosPart_%s_%s : List Op :=\n  %s\n" % (nm, part, lops(e["parts"][part]))
+    s += "/-- Φ0 type ↦ one synchronized step of the outer splitting (shell-0 drift = the whole inner scheme) -/\n"
+    s += "def eosOuter : List (Nat × List Op) := [" + ", ".join("(%d, eosOuter_%s)" % (e["value"], e["name"]) for e in D["eos"]) + "]\n"
+    s += "def eosOuterTwoUnsync : List (Nat × List Op) := [" + ", ".join("(%d, eosOuterTwo_%s)" % (e["value"], e["name"]) for e in D["eos"]) + "]\n"
+    s += "/-- (Φ1 type, n) ↦ reb_integrator_eos_drift_shell0(r, dt) unrolled by the translator, coefficients in units of the argument dt -/\n"
+    s += "def eosInner : List ((Nat × Nat) × List Op) := [" + ", ".join(
+        "((%d, %d), eosInner_%s_%d)" % (e["value"], n, e["name"], n) for e in D["eos"] for n in sorted(e["inner"])) + "]\n"
+    s += "/-- Φ1 type ↦ (pre, head, body, merge, tail, post) of the n-loop, coefficients in units of dt/n -/\n"
+    s += "def eosParts : List (Nat × (List Op × List Op × List Op × List Op × List Op × List Op)) := [" + ", ".join(
+        "(%d, (eosPart_%s_pre, eosPart_%s_head, eosPart_%s_body, eosPart_%s_merge, eosPart_%s_tail, eosPart_%s_post))" % ((e["value"],) + (e["name"],) * 6)
+        for e in D["eos"]) + "]\n"
+    s += "def eosCounts : List (String × Nat) := [(\"types\", %d), (\"tables\", %d), (\"literals\", %d)]\n" % (
+        len(D["eos"]), len(D["eos_table_names"]), sum(T["eos_" + n]["explicit"] for n in D["eos_table_names"]))
+    s += "end RV.C01.Gen\n"
+    out["C01Eos.lean"] = s
+
+    # ---------------- JANUS
+    s = HEADER % "src/integrator_janus.c"
+    s += "/-- (order, stages, gamma[17]) of every scheme -/\ndef janusSchemes : List (Nat × Nat × List Rat) := [" + ",\n  ".join(
+        "(%d, %d, %s)" % (e["order"], e["stages"], llist(T["janus_" + e["scheme"]]["value"]["gamma"])) for e in D["janus"]) + "]\n"
+    for e in D["janus"]:
+        s += "def janusStep_%d : List Op :=\n  %s\n" % (e["order"], lops(e["step"]))
+    s += "/-- ri_janus.order ↦ one step (part1, force evaluation, part2) -/\n"
+    s += "def janusStep : List (Nat × List Op) := [" + ", ".join("(%d, janusStep_%d)" % (e["order"], e["order"]) for e in D["janus"]) + "]\n"
+    s += "def janusCounts : List (String × Nat) := [(\"schemes\", %d)]\n" % len(D["janus"])
+    s += "end RV.C01.Gen\n"
+    out["C01Janus.lean"] = s
+
+    # ---------------- IAS15
+    s = HEADER % "src/integrator_ias15.c"
+    for n in ("h", "rr", "c", "d", "w"):
+        s += "def ias%s : List Rat := %s\n" % (n.upper(), llist(T["ias15_" + n]["value"]))
+    s += "def iasCounts : List (String × Nat) := [" + ", ".join('("%s", %d)' % (n, T["ias15_" + n]["explicit"]) for n in ("h", "rr", "c", "d", "w")) + "]\n"
+    s += "end RV.C01.Gen\n"
+    out["C01Ias15.lean"] = s
+
+    # ---------------- LEAPFROG
+    s = HEADER % "src/integrator_leapfrog.c"
+    s += "def leapfrogStep : List Op :=\n  %s\n" % lops(D["leapfrog"])
+    s += "end RV.C01.Gen\n"
+    out["C01Leapfrog.lean"] = s
+    return out
+
+
+def eos_parts(D, repo):
+    """decomposition of the inner n-loop of each Φ1 type: certificate checked in Lean against the unrolled n = 1..4"""
+    S = os.path.join(repo, "src")
+    enums = parse_enums(os.path.join(S, "rebound.h"))
+    eos = CFile(os.path.join(S, "integrator_eos.c"))
+    for e in D["eos"]:
+        def proc(fn):
+            ops = run_config([eos], enums, [(fn, lambda dt, v=e["value"]: [Path("r"), dt, v, ("func", "reb_integrator_eos_drift_shell1"),
+                                                                        ("func", "reb_integrator_eos_interaction_shell1")])],
+                             {"r.N": 2}, set())
+            return abstract(ops, "eos")
+        pre, post = proc("reb_integrator_eos_preprocessor"), proc("reb_integrator_eos_postprocessor")
+        one = split_processed(e["inner"][1], pre, post, "eos inner %s" % e["name"])
+        def sc(ops, f):
+            return [(k, a * f, b if k == K_DRIFT else b * f ** 3) for k, a, b in ops]
+        two = sc(split_processed(e["inner"][2], sc(pre, Fraction(1, 2)), sc(post, Fraction(1, 2)), "eos inner n=2 %s" % e["name"]), 2)
+        if len(one) < 3 or one[0][0] != K_DRIFT or one[-1][0] != K_DRIFT:
+            raise ExtractError("eos inner %s: does not start and end with a drift" % e["name"])
+        head, body, tail = one[:1], one[1:-1], one[-1:]
+        if len(two) != 2 + 2 * len(body) + 1:
+            raise ExtractError("eos inner %s: n = 2 is not head body merge body tail" % e["name"])
+        merge = two[1 + len(body):2 + len(body)]
+        e["parts"] = {"pre": pre, "head": head, "body": body, "merge": merge, "tail": tail, "post": post}
+
+
+# ------------------------------------------------------------------------------- compiled cross-check of the literals
+def compiled_doubles(D, workdir):
+    """compile the table initialisers verbatim into a small C program, read back the IEEE doubles the compiler produced
+    and compare with float(Fraction(text)).  Returns (n_checked, mismatches)."""
+    T = D["tables"]
+    src = ["#include <stdio.h>", "#include <string.h>", "#include <stdint.h>", D["janus_struct_text"]]
+    prints = []
+    expect = []
+    for key, t in T.items():
+        text = t["text"]
+        # make every definition a distinct, non-static object
+        nm = "tab_" + re.sub(r"\W", "_", key)
+        text = re.sub(r"\b" + re.escape(t["name"]) + r"\b", nm, text, count=1)
+        text = re.sub(r"^\s*static\s+", "", text)
+        src.append(text)
+        v = t["value"]
+        flat = []
+
+        def walk(x, expr):
+            if isinstance(x, list):
+                for i, y in enumerate(x):
+                    walk(y, "%s[%d]" % (expr, i))
+            elif isinstance(x, dict):
+                for k2, y in x.items():
+                    walk(y, "%s.%s" % (expr, k2))
+            else:
+                flat.append((expr, x))
+        walk(v, nm)
+        for expr, x in flat:
+            prints.append('  { double v = (double)(%s); uint64_t u; memcpy(&u, &v, 8); printf("%%016llx\\n", (unsigned long long)u); }' % expr)
+            expect.append((expr.replace(nm, key, 1), x))
+    src.append("int main(void){")
+    src += prints
+    src.append("  return 0; }")
+    cfile = os.path.join(workdir, "c01_literals.c")
+    exe = os.path.join(workdir, "c01_literals")
+    with open(cfile, "w") as f:
+        f.write("\n".join(src) + "\n")
+    p = subprocess.run(["gcc", "-O3", "-std=c99", "-ffp-contract=off", "-w", cfile, "-o", exe], capture_output=True, text=True)
+    if p.returncode != 0:
+        raise ExtractError("literal cross-check program does not compile: " + p.stderr[:1500])
+    outp = subprocess.run([exe], capture_output=True, text=True).stdout.split()
+    if len(outp) != len(expect):
+        raise ExtractError("literal cross-check: %d values printed, %d expected" % (len(outp), len(expect)))
+    import struct
+    bad = []
+    for hx, (expr, x) in zip(outp, expect):
+        got = struct.unpack("<d", struct.pack("<Q", int(hx, 16)))[0]
+        want = float(Fraction(x))      # correctly rounded (round-half-even) conversion of the exact rational
+        if got != want or (got == 0 and str(got) != str(want)):
+            bad.append((expr, hx, repr(want)))
+    return len(expect), bad
+
+
+def write_gen(repo, lean_dir, write_if_changed):
+    D = extract_all(repo)
+    eos_parts(D, repo)
+    files = emit_lean(D)
+    changed = []
+    for fn, content in files.items():
+        if write_if_changed(os.path.join(lean_dir, "RV", "Gen", fn), content):
+            changed.append(fn)
+    return D, changed
+
+
+if __name__ == "__main__":
+    repo = sys.argv[1] if len(sys.argv) > 1 else "/repo"
+    here = os.path.dirname(os.path.abspath(__file__))
+    sys.path.insert(0, here)
+    from common import write_if_changed, LEAN
+    D, changed = write_gen(repo, LEAN, write_if_changed)
+    print("regenerated:", changed)
+    with tempfile.TemporaryDirectory() as td:
+        n, bad = compiled_doubles(D, td)
+    print("compiled literals checked:", n, "mismatches:", bad[:5])
